@@ -66,6 +66,10 @@ func cfgDecide(assign map[string]bool, atom string) (bool, bool) {
 		return false, true
 	case strings.Contains(atom, "(load(param:o."+op+")<=const(0))"):
 		return !set, true
+	case atom == "Eq(load(param:o."+op+"),const(0))", atom == "Eq(const(0),load(param:o."+op+"))", strings.Contains(atom, "(load(param:o."+op+")==const(0))"):
+		return !set, true
+	case strings.Contains(atom, "(load(param:o."+op+")!=const(0))"):
+		return set, true
 	}
 	return false, false
 }
